@@ -33,6 +33,7 @@ import (
 	"github.com/nspcc-dev/neo-go/pkg/vm/opcode"
 	"github.com/nspcc-dev/neo-go/pkg/wallet"
 	"go.uber.org/zap"
+	"go.uber.org/zap/zapcore"
 )
 
 // ---------------------------------------------------------------------------------------------
@@ -97,6 +98,7 @@ type c02Cfg struct {
 	KOLS    bool   `json:"kols,omitempty"`  // KeepOnlyLatestState
 	Trusted uint32 `json:"trusted,omitempty"` // TrustedHeader index (hash taken from the source chain)
 	NoVerify bool  `json:"noverify,omitempty"` // VerifyTransactions off
+	Race     bool  `json:"race,omitempty"`     // a second goroutine flushes continuously during synchronisation (batch boundaries between single Puts)
 }
 
 const (
@@ -125,7 +127,10 @@ func (c c02Cfg) hook(b *config.Blockchain) {
 	}
 }
 
-var c02Nop = zap.NewNop()
+// the node's logger: silent, except that a Fatal entry is printed and turned into a panic (zap's default
+// would end the whole harness process with exit status 1 and no message)
+var c02Nop = zap.New(zapcore.NewCore(zapcore.NewConsoleEncoder(zap.NewDevelopmentEncoderConfig()), zapcore.AddSync(os.Stderr), zap.FatalLevel),
+	zap.WithFatalHook(zapcore.WriteThenPanic))
 
 // c02Open opens a Blockchain on st. It never lets a panic escape.
 func c02Open(st storage.Store, cfg c02Cfg, extra func(*config.Blockchain)) (bc *core.Blockchain, sg neotest.Signer, fail string) {
@@ -441,7 +446,10 @@ func c02MakeTx(t *c02T, e *neotest.Executor, accs []neotest.Signer, x c02Tx) *tr
 
 // c02Build executes the history on a source chain (memory store, same configuration, flushed after
 // every block), keeps the blocks and a snapshot of the reference database at every height.
-func c02Build(h c02History) (*c02Built, error) {
+func c02Build(h c02History) (*c02Built, error) { return c02BuildOpt(h, nil) }
+
+// c02BuildOpt: wantDump tells at which heights the whole reference database is kept (nil = all).
+func c02BuildOpt(h c02History, wantDump func(uint32) bool) (*c02Built, error) {
 	t := &c02T{}
 	base := storage.NewMemoryStore()
 	cfg := h.Cfg
@@ -465,7 +473,11 @@ func c02Build(h c02History) (*c02Built, error) {
 		if err != nil {
 			panic(err)
 		}
-		b.Snaps = append(b.Snaps, c02Snap{Root: sr.Root, Hash: bc.CurrentBlockHash(), Dump: c02Dump(base)})
+		var dump map[string][]byte
+		if wantDump == nil || wantDump(hgt) {
+			dump = c02Dump(base)
+		}
+		b.Snaps = append(b.Snaps, c02Snap{Root: sr.Root, Hash: bc.CurrentBlockHash(), Dump: dump})
 	}
 	fail = c02Try(func() {
 		e := neotest.NewExecutor(t, bc, vs, vs)
